@@ -62,15 +62,13 @@ def mpProve (cfg : IpaCfg F G) (tr : Tr) (Cs : List G) (fs : List (List F)) (zs 
   let groups := groupPolys N fs pows zs w order
   -- g(X) = Σ_z (grouped_z − grouped_z(z)) / (X − z)
   let g := (List.zipIdx groups).foldl (fun (g : List F) (e : Option (List F) × Nat) =>
-      match e.1 with
-      | none => g
-      | some f => addVec g (cfg.weights.divideOnDomain N e.2 f)) (List.replicate N 0)
+      (e.1.map fun f => addVec g (cfg.weights.divideOnDomain N e.2 f)).getD g) (List.replicate N 0)
   let D := msm cfg.srs g
   let tr := tr.appendPoint enc D Label.D
   let (t, tr) := tr.challenge enc Label.t
   -- denominators for the referenced points only, compacted
   let dens := (List.zipIdx groups).filterMap (fun (e : Option (List F) × Nat) =>
-      match e.1 with | none => none | some _ => some (t - ((e.2 : Nat) : F)))
+      e.1.map fun _ => t - ((e.2 : Nat) : F))
   let denInv := batchInvert dens
   let used := groups.filterMap id
   let h := (List.zip used denInv).foldl (fun (h : List F) (e : List F × F) =>
